@@ -2423,3 +2423,37 @@ m("C10", "name-ordinal-constant", C,
         body = []''',
   '''        names[node.name] = 0
         body = []''')
+
+# ---- repairs after round 8 (04d6ce9, a95e10c, 47c341b) ------------------------
+m("C15", "fallback-name-without-identity", "zpt/template.py",
+  '''    return "%s@%x" % (repr(value), id(value))''',
+  '''    return repr(value)''')
+m("C15", "refactor-fallback-name-format", "zpt/template.py",
+  '''    return "%s@%x" % (repr(value), id(value))''',
+  '''    return "{!r}@{:x}".format(value, id(value))''', expect="silent")
+m("C03", "pi-name-leading-word-only", "parser.py",
+  r'''    r'^<\?(?P<name>[\w.:-]+)(?P<text>.*?)\?>', re.DOTALL)''',
+  r'''    r'^<\?(?P<name>\w+)(?P<text>.*?)\?>', re.DOTALL)''')
+m("C03", "pi-name-without-colon", "parser.py",
+  r'''    r'^<\?(?P<name>[\w.:-]+)(?P<text>.*?)\?>', re.DOTALL)''',
+  r'''    r'^<\?(?P<name>[\w.-]+)(?P<text>.*?)\?>', re.DOTALL)''')
+m("C03", "refactor-pi-name-class-respelled", "parser.py",
+  r'''    r'^<\?(?P<name>[\w.:-]+)(?P<text>.*?)\?>', re.DOTALL)''',
+  r'''    r'^<\?(?P<name>[-:.\w]+)(?P<text>.*?)\?>', re.DOTALL)''',
+  expect="silent")
+m("C09", "macro-lookup-replaces-hyphen-only", "zpt/template.py",
+  '''        name = mangle(name)
+        self.template.cook_check()''',
+  '''        name = name.replace('-', '_')
+        self.template.cook_check()''')
+m("C09", "refactor-macro-lookup-key-local", "zpt/template.py",
+  '''        name = mangle(name)
+        self.template.cook_check()
+
+        try:
+            function = getattr(self.template, "_render_%s" % name)''',
+  '''        key = mangle(name)
+        self.template.cook_check()
+
+        try:
+            function = getattr(self.template, "_render_%s" % key)''', expect="silent")
